@@ -12,7 +12,10 @@ TRUSTED = ["Model/Tracking.v (exact rational arithmetic on dyadic coordinates) t
            "get_point_id_by_map by exact correspondence (cm=False); radius products spread*maxcoord are exact rationals in the model "
            "and rounded doubles in the code (ties excluded by the generator)"]
 ASSUMPTIONS = ["the 'externals' pass of create_mapping compares ids with BigEdge objects and never matches (dead code); the model omits it"]
-TESTED_NOT_PROVED = ["'each junction is mapped to its true successor under the stated motion bounds' is evaluated by the oracle on every series"]
+TESTED_NOT_PROVED = ["'each junction is mapped to its true successor under the stated motion bounds' is proved for the model over the rationals "
+                     "(C12_small_motions_are_followed: motion < d <= half the spacing of the next frame's end points and <= the largest search "
+                     "radius); for the floating-point implementation, and for the bounding-box clause (too_different), it is evaluated by the "
+                     "oracle on every series"]
 IMPORTS = "From Forsys Require Import Model.CaseUtil Model.PyList Model.Tracking.\n"
 
 SPREADS = []
